@@ -35,11 +35,13 @@ abbrev Str := List Char
 
 /-! ## values and what the caller writes -/
 
-/-- a Python value that sqlite3 can bind / a cell of an untyped column: `None`, `int`, `str` -/
+/-- a Python value that sqlite3 can bind / a cell of an untyped column: `None`, `int`, `str`, bytes -/
 inductive Value where
   | null
   | int (i : Int)
   | text (s : Str)
+  /-- `bytes` / `bytearray` / `memoryview`: one value for SQL (a BLOB), never a list of its bytes -/
+  | blob (bytes : List Nat)
   deriving DecidableEq, Repr, Inhabited
 
 /-- the value part of a condition: one object, a list/tuple, or a set (in its iteration order) -/
@@ -493,8 +495,15 @@ def Cells.get? : Cells → Str → Option Value
   | [], _ => none
   | (k, v) :: rest, f => if k = f then some v else Cells.get? rest f
 
+/-- `memcmp` order of byte strings -/
+def natsLt : List Nat → List Nat → Bool
+  | [], [] => false
+  | [], _ :: _ => true
+  | _ :: _, [] => false
+  | a :: as, b :: bs => if a < b then true else if b < a then false else natsLt as bs
+
 /-- SQLite's order of values (used by comparisons on non-NULL values and by ORDER BY):
-NULL < integers (numeric) < texts (BINARY) -/
+NULL < integers (numeric) < texts (BINARY) < blobs (memcmp) -/
 def vLt : Value → Value → Bool
   | .null, .null => false
   | .null, _ => true
@@ -503,6 +512,9 @@ def vLt : Value → Value → Bool
   | .int _, .text _ => true
   | .text _, .int _ => false
   | .text a, .text b => strLt a b
+  | .blob a, .blob b => natsLt a b
+  | .blob _, _ => false
+  | _, .blob _ => true
 
 /-- `x <op> y` -/
 def cmp3 (c : CmpOp) (x y : Value) : Tri :=
@@ -548,12 +560,18 @@ def asText : Value → Option Str
   | .null => none
   | .int i => some (toString i).toList
   | .text s => some s
+  | .blob _ => none
 
-/-- `x LIKE p` -/
+/-- `x LIKE p`. A BLOB on either side never matches (this SQLite is built with
+LIKE_DOESNT_MATCH_BLOBS: the result is 0, also against NULL). -/
 def likeSem (x p : Value) : Tri :=
-  match asText x, asText p with
-  | some s, some pat => .ofBool (likeMatch pat s)
-  | _, _ => .unk
+  match x, p with
+  | .blob _, _ => .ff
+  | _, .blob _ => .ff
+  | _, _ =>
+    match asText x, asText p with
+    | some s, some pat => .ofBool (likeMatch pat s)
+    | _, _ => .unk
 
 /-- `f <op> ?` -/
 def semCmp (row : Row) (f : Str) (c : CmpOp) (ps : List Value) : Option (Tri × List Value) :=
@@ -581,6 +599,7 @@ def truth : Value → Tri
   | .null => .unk
   | .int i => if i = 0 then .ff else .tt
   | .text _ => .ff
+  | .blob _ => .ff
 
 mutual
 /-- value of one clause on a row; consumes its parameters from the front of the list, in the
@@ -673,6 +692,7 @@ def Value.erase : Value → Value
   | .null => .null
   | .int _ => .int 0
   | .text _ => .text []
+  | .blob _ => .blob []
 
 /-- keeps the kind of the argument, the length of a list/set and the types of the values -/
 def Arg.erase : Arg → Arg
